@@ -132,7 +132,7 @@ BgWait == /\ pc = "bgwait"
              \/ \* nobody waits for the proxy threads of a background pipeline: the read end an alias stage reads
                 \* from, and the capture pipes of an alias that is the last stage, stay open in the shell
                 /\ "Dev_BackgroundAliasKeepsPipes" \in Deviations
-                /\ \E k \in 1..shape.n : shape.kinds[k] = "alias" /\ (k >= 2 \/ k = shape.n)
+                /\ \E k \in 1..shape.n : shape.kinds[k] = "alias" /\ (k >= 2 \/ k = shape.n \/ shape.n >= 3)
                 /\ owned' = {r \in owned : r[1] = "pipeR" /\ ~UsedByChild(r)}
                              \cup (IF shape.kinds[shape.n] = "alias" THEN {<<"capR", shape.n>>, <<"capW", shape.n>>} ELSE {})
           /\ pc' = "done" /\ UNCHANGED <<shape, i, handlers, failed>>
@@ -146,7 +146,8 @@ Spec == Init /\ [][Next]_vars /\ WF_vars(Next)
 ObsDevEnabled(d, feat) ==
   CASE d = "Dev_NotFoundLeaksEarlierStages" -> feat.fault = "not_found" /\ feat.at >= 2
     [] d = "Dev_BackgroundKeepsConnectingPipes" -> feat.form = "background" /\ feat.n >= 2
-    [] d = "Dev_BackgroundAliasKeepsPipes" -> feat.form = "background" /\ (feat.lastkind = "alias" \/ feat.aliasreader)
+    \* (also an alias as the first of three or more stages: `myalias | cat | cat &` leaves both children running)
+    [] d = "Dev_BackgroundAliasKeepsPipes" -> feat.form = "background" /\ (feat.lastkind = "alias" \/ feat.aliasreader \/ (feat.firstkind = "alias" /\ feat.n >= 3))
     [] OTHER -> FALSE
 Judge(feat, clean) == clean \/ \E d \in Deviations : ObsDevEnabled(d, feat) /\ ~clean
 
